@@ -66,20 +66,34 @@ class Deflate(object):
             )
         return wbits
 
+    def _inflate(self, data):
+        """Decompress a chunk of data."""
+        payload = self._decompressobj.decompress(data)
+        while (
+            getattr(self._decompressobj, 'eof', False)
+            or self._decompressobj.unused_data
+        ):
+            # The peer ended the deflate stream with a final block (see
+            # RFC 7692 section 7.2.3.4), what follows is a new stream.
+            data = self._decompressobj.unused_data
+            self.reset_decompressor()
+            payload += self._decompressobj.decompress(data)
+        return payload
+
     def decompress(self, frames):
         """Decompress payload, returned decompressed data."""
         if PY2:
             data = [
-                self._decompressobj.decompress(bytes(frame.payload))
+                self._inflate(bytes(frame.payload))
                 for frame in frames
             ]
         else:
             data = [
-                self._decompressobj.decompress(frame.payload)
+                self._inflate(frame.payload)
                 for frame in frames
             ]
 
-        data.append(self._decompressobj.decompress(b"\x00\x00\xff\xff"))
+        data.append(self._inflate(b"\x00\x00\xff\xff"))
         payload = b''.join(data)
         if self.reset_decompress:
             self.reset_decompressor()
